@@ -24,6 +24,9 @@ type Metrics struct {
 	TotalRequests      uint64 `json:"total_requests"`
 	SuccessfulRequests uint64 `json:"successful_requests"`
 	FailedRequests     uint64 `json:"failed_requests"`
+	// Rate limiting metrics. Kept with the other atomic counters at the start of the struct:
+	// 64-bit atomic operations need 8-byte alignment, which 32-bit platforms only guarantee here
+	RateLimitedRequests uint64 `json:"rate_limited_requests"`
 
 	// Response time metrics (using exponential moving average to prevent overflow)
 	// Stored as uint64 bits of float64 for atomic operations
@@ -33,9 +36,6 @@ type Metrics struct {
 
 	// Backend metrics
 	BackendMetrics map[string]*BackendMetrics `json:"backend_metrics"`
-
-	// Rate limiting metrics
-	RateLimitedRequests uint64 `json:"rate_limited_requests"`
 
 	// Circuit breaker metrics
 	CircuitBreakerMetrics map[string]*CircuitBreakerMetrics `json:"circuit_breaker_metrics"`
